@@ -35,6 +35,8 @@ type session struct {
 	inOutput   int32
 	maxOverlap int32
 	onFrame    func(frame string, width, height int)
+	sizeNow    int64 // width<<20|height last announced through resize (0 = never)
+	sizePrev   int64 // the size before it, while the resize call is still in progress
 }
 
 func newSession(sm *sim.Sim, w, h int, onFrame func(string, int, int)) *session {
@@ -49,7 +51,18 @@ func newSession(sm *sim.Sim, w, h int, onFrame func(string, int, int)) *session 
 		}
 		if x.onFrame != nil {
 			// width/height in force: this callback runs inside the call that emits the frame
-			x.onFrame(frame, x.s.width, x.s.height)
+			w, h := x.s.width, x.s.height
+			if cur := atomic.LoadInt64(&x.sizeNow); cur != 0 {
+				// the harness's own record of the size it last announced (see resize): servitor's fields are not the reference.
+				// While a resize call is in progress a frame from another goroutine may still have the previous size.
+				w, h = int(cur>>20), int(cur&0xfffff)
+				if prev := atomic.LoadInt64(&x.sizePrev); prev != 0 && prev != cur {
+					if n := strings.Count(frame, "\n") + 1; n == int(prev&0xfffff) && n != h {
+						w, h = int(prev>>20), int(prev&0xfffff)
+					}
+				}
+			}
+			x.onFrame(frame, w, h)
 		}
 		x.mu.Lock()
 		x.frames++
@@ -58,6 +71,18 @@ func newSession(sm *sim.Sim, w, h int, onFrame func(string, int, int)) *session 
 		atomic.AddInt32(&x.inOutput, -1)
 	})
 	return x
+}
+
+// resize announces a new terminal size and remembers it on the harness's side
+func (x *session) resize(w, h int) {
+	cur := atomic.LoadInt64(&x.sizeNow)
+	if cur == 0 {
+		cur = int64(x.s.width)<<20 | int64(x.s.height)
+	}
+	atomic.StoreInt64(&x.sizePrev, cur)
+	atomic.StoreInt64(&x.sizeNow, int64(w)<<20|int64(h))
+	x.s.SetWidthHeight(w, h)
+	atomic.StoreInt64(&x.sizePrev, 0)
 }
 
 type snap struct {
